@@ -206,7 +206,14 @@ func (s *Sim) membershipOp() {
 			members = append(members, h)
 		}
 	}
-	op := src.Weighted([]int{4, 2, 2, 3, 2, 1, 1})
+	weights := []int{4, 2, 2, 3, 2, 1, 1}
+	switch s.cfg.MemberBias {
+	case 1: // mostly non-voting members
+		weights = []int{1, 8, 1, 1, 1, 0, 0}
+	case 2: // mostly witnesses
+		weights = []int{1, 1, 8, 1, 1, 0, 0}
+	}
+	op := src.Weighted(weights)
 	switch op {
 	case 0, 1, 2: // add a spare
 		if len(spares) == 0 {
